@@ -334,8 +334,33 @@ def boundary_objects(fmt, rng, deltas=range(-3, 4)):
                 npre = b + d - before - 2 - len(key)
                 if npre < 0:
                     continue
-                sf[key] = "x" * npre + rng.choice([":", ";", "\\", ":;", "\\\\"]) + rng.choice(["tail", "", " "])
+                sf[key] = "x" * npre + rng.choice([":", ";", "\\", ":;", "\\\\", "//", "//"]) + rng.choice(["tail", "", " "])
                 yield sf, {"boundary": b, "delta": d, "first": first}
+    # ... and so that it falls on / next to such an offset of the VALUE itself (a property's value; a chart's note data)
+    from simfile.sm import SMChart
+    from simfile.ssc import SSCChart
+    for b in BOUNDARIES:
+        for d in deltas:
+            seq = "//" if d in (-2, -1) else rng.choice(["//", ":", ";", "\\", "//x//"])      # ('//' straddling the offset: always)
+            body = "0" * (b + d) + seq + rng.choice(["1111\n2222", "", "tail"])
+            sf = cls(string="")
+            if fmt == "ssc":
+                sf["VERSION"] = "0.83"
+            sf["TITLE"] = "t"
+            sf[rng.choice(["CREDIT", "X", "ATTACKS"])] = body
+            yield sf, {"boundary": b, "delta": d, "value_offset": True}
+            sf = cls(string="")
+            if fmt == "ssc":
+                sf["VERSION"] = "0.83"
+            sf["TITLE"] = "t"
+            if fmt == "sm":
+                sf.charts.append(SMChart.from_msd(["dance-single", "", "Hard", "9", "0,0,0,0,0", body.strip()]))
+            else:
+                c = SSCChart()
+                c["STEPSTYPE"] = "dance-single"
+                c[rng.choice(["NOTES", "NOTES2"])] = body
+                sf.charts.append(c)
+            yield sf, {"boundary": b, "delta": d, "value_offset": True, "chart": True}
 
 
 def corpus_files():
